@@ -188,7 +188,7 @@ def run(ctx):
         res.count("e2e_overlap_programs", res.evaluations)
         # cycles of length 1..4 through each edge kind
         # (the last two: a plain call next to a lambda / a nested function whose PARAMETER has the name of the called function)
-        kinds = ["call", "keep", "ref", "method", "object", "call_lambda_param", "call_def_param"]
+        kinds = ["call", "keep", "ref", "method", "object", "call_lambda_param", "call_def_param", "inherited"]
         for n in range(1, 5):
             combos = list(itertools.product(kinds, repeat=n))
             if not thorough and len(combos) > 12:
@@ -209,6 +209,10 @@ def run(ctx):
                         body = "    return apply(%s)\n" % nxt
                     elif kind == "method":
                         src += "class K%d(object):\n    def m(self):\n        return %s()\n\n" % (i, nxt)
+                        body = "    return K%d().m()\n" % i
+                    elif kind == "inherited":
+                        # the method that closes the cycle is defined in a base class
+                        src += "class B%d(object):\n    def m(self):\n        return %s()\n\nclass K%d(B%d):\n    def other(self):\n        return 1\n\n" % (i, nxt, i, i)
                         body = "    return K%d().m()\n" % i
                     else:
                         # the object is built first, the method is called on the variable (the class is then a node of the
@@ -273,11 +277,17 @@ def run(ctx):
                         inner._paths.clear()
         # nested eval at depth 1..4
         for depth in range(1, 5):
-            for via in ("call", "keep"):
+            for via in ("call", "keep", "inherited"):
                 src = HEAD + "def inner():\n    log('inner')\n    return 'i'\n\n"
-                src += "def h%d():\n    log('h%d')\n    return dds.eval(inner)\n\n" % (depth, depth)
+                if via == "inherited":
+                    # the nested eval sits in a method defined by a base class
+                    src += ("class BaseRunner(object):\n    def launch(self):\n        log('launch')\n        return dds.eval(inner)\n\n"
+                            "class Runner(BaseRunner):\n    def other(self):\n        return 1\n\n"
+                            "def h%d():\n    log('h%d')\n    return Runner().launch()\n\n" % (depth, depth))
+                else:
+                    src += "def h%d():\n    log('h%d')\n    return dds.eval(inner)\n\n" % (depth, depth)
                 for i in range(depth - 1, 0, -1):
-                    if via == "call":
+                    if via in ("call", "inherited"):
                         src += "def h%d():\n    log('h%d')\n    return h%d()\n\n" % (i, i, i + 1)
                     else:
                         src += "def h%d():\n    log('h%d')\n    return dds.keep('/n%d', h%d)\n\n" % (i, i, i, i + 1)
